@@ -10,10 +10,11 @@ N == Len(Rec)
 VARIABLES l, phase, bad
 vars == <<l, phase, bad>>
 WResizeL(a, n) == [i \in 1..n |-> a[i]]
-H(e) == IF e.ev = "ff" THEN IVOf(e.alg) ELSE Force([i \in 1..8 |-> WOfBE(e.chain, 4 * (i - 1), 2)])
+H(e) == IF e.ev = "ff" THEN IVOf(e.alg) ELSE LET nl == NL(e.alg) IN Force([i \in 1..8 |-> WOfBE(e.chain, 2 * nl * (i - 1), nl)])
 CounterOk(e) == e.ev = "ff" \/ e.base = WResize(WShl(e.fed, 3), Len(e.base))
 Want(e) == BlakeFrom(H(e), e.base, e.rest, NL(e.alg), IsFull(e.alg), OutBytes(e.alg))
-Check(e) == e.res = "ok" /\ CounterOk(e) /\ e.out = Want(e)
+RefOk(e) == ("out_ref" \in DOMAIN e) => (e.out = e.out_ref /\ e.chain = e.chain_ref /\ e.base = e.base_ref /\ e.pos = e.pos_ref)   \* one-call vs chunk-fed instance
+Check(e) == e.res = "ok" /\ CounterOk(e) /\ RefOk(e) /\ e.out = Want(e)
 Init == l \in 1..N /\ phase = 0 /\ bad = FALSE
 Next == /\ phase = 0 /\ phase' = 1 /\ l' = l
         /\ bad' = IF Check(Rec[l]) THEN FALSE ELSE PrintT(<<"REJECT", l>>)
